@@ -19,6 +19,10 @@ COQ_TARGETS = ['props/C12.vo', 'drv/QueueRank.vo']
 def monitor(case):
     """Property C12 on what the real driver did; None or a description.
     Sound: flags only behaviour the property forbids."""
+    if case.get('crashed') and not case.get('hung'):
+        late = monitor(dict(case, crashed=False))
+        return late or ('the driver panicked after %d granted steps (runEngine recovered the panic and called atexit.Exit)'
+                        % len(case.get('steps', [])))
     if case.get('hung'):
         ql = {}
         for ev in case.get('log', []):
@@ -31,14 +35,22 @@ def monitor(case):
                 'application thread has not finished its calls, %s' % (len(case.get('steps', [])), why))
     pending = collections.defaultdict(list)      # queue -> ids in submission order, not yet completed
     mine = collections.defaultdict(list)         # (thread, queue) -> ids submitted
+    asyncs = {o['id'] for p in case['progs'] for o in p if o.get('k') == 'async'}
+    answered = set()                             # asynchronous commands whose response reached the driver's port
     for ev in case.get('log', []):
         q = ev['q']
         if ev['e'] == 'enq':
             pending[q].append(ev['id'])
             mine[(ev['t'], q)].append(ev['id'])
+        elif ev['e'] == 'rsp':
+            answered.add(ev['id'])
         elif ev['e'] == 'q':
             while len(pending[q]) > ev['n']:
-                pending[q].pop(0)                # a completion: must have been the oldest
+                x = pending[q].pop(0)            # a completion: must have been the oldest
+                if x in asyncs and x not in answered:
+                    return ('queues are not isolated: command %d of queue %d was completed although the GPU has not answered '
+                            'its request (GPU answers so far: for commands %s) - a response was matched to a queue it does not '
+                            'belong to' % (x, q, sorted(answered)))
             if len(pending[q]) != ev['n']:
                 return 'queue %d holds %d commands, %d were submitted and not completed' % (q, ev['n'], len(pending[q]))
             head = pending[q][0] + 1 if pending[q] else 0
@@ -67,8 +79,8 @@ def nontrivial(case):
 def run_impl(binary, args, timeout=600):
     tmp = os.path.join(vlib.BUILD, 'c12_%d.json' % os.getpid())
     rc, log = vlib.run([binary] + args + ['--out', tmp], timeout=timeout)
-    if rc != 0 or not os.path.exists(tmp):
-        return None, log
+    if not os.path.exists(tmp) or (rc != 0 and rc != 1):
+        return None, log            # rc 1 with an output file: the driver panicked, the runs up to then were written
     out = json.load(open(tmp))
     os.remove(tmp)
     return out, log
@@ -197,8 +209,8 @@ def main(argv):
     # ---- un-instrumented stress run
     stress = []
     if not replay_file:
-        plans = ([(20, 3, ['--mix', '--chaos']), (20, 8, ['--mix']), (10, 1, []), (15, 2, ['--mix', '--chaos'])] if thorough
-                 else [(4, 3, ['--mix', '--chaos']), (3, 8, ['--mix']), (2, 1, [])])
+        plans = ([(20, 3, ['--mix', '--chaos']), (20, 8, ['--mix']), (15, 4, ['--oneq']), (10, 1, []), (15, 2, ['--mix', '--chaos'])] if thorough
+                 else [(4, 3, ['--mix', '--chaos']), (3, 8, ['--mix']), (4, 4, ['--oneq']), (2, 1, [])])
         for secs, workers, extra in plans:
             r, log = run_impl(binary, ['--stress', str(secs), '--workers', str(workers), '--seed', str(vlib.seed())] + extra,
                               timeout=secs * 25 + 700)
@@ -224,7 +236,7 @@ def main(argv):
                 '(a subscriber kept before its signal while another thread drains; runAsync kept at each of its yield points; '
                 'an engine kept before its first/after its last emptiness test; busy context before idle one) with the three '
                 'continuation policies from every hold point; every schedule that differs within the first 7 (thorough: 14) '
-                'steps for six small programs; four recorded schedules; non-trivial = a command completed, a Drain returned '
+                'steps for six small programs; kernels in flight in 2-3 contexts; drains entering at deq:notify/enq:notify; four recorded schedules; non-trivial = a command completed, a Drain returned '
                 'and application, runAsync and engine steps all occur',
         'traces_validated_against_impl': len(cases),
         'granted_steps': sum(len(c['steps']) for c in cases),
